@@ -70,8 +70,8 @@ Section Get.
   Lemma reads_wrapg : forall a l r e, reads (snd (wrapg a l r)) e <-> reads (snd r) e.
   Proof. intros a l [st o] e. unfold reads. cbn. tauto. Qed.
 
-  Lemma reads_nopath : forall v calc e, reads {| g_val := v; g_pas := None; g_calc := calc |} e.
-  Proof. intros v calc e p ks x H. discriminate. Qed.
+  Lemma reads_nopath : forall v calc j e, reads {| g_val := v; g_pas := None; g_calc := calc; g_js := j |} e.
+  Proof. intros v calc j e p ks x H. discriminate. Qed.
 
   Lemma sub_reads : forall e a st, good e ->
     hv_ok (hoists (fst (wrapg a (pg_level e) (core e st)))) hv ev -> reads (snd (wrapg a (pg_level e) (core e st))) e.
@@ -106,7 +106,7 @@ Section Get.
     intros o k Hfo Hfk IHo st. cbn [gen_core]. destruct (gen_private st) as [ident st0] eqn:Ep.
     pose proof (mono_wrapg k L_Cond st0 Hfk) as Hi1.
     destruct (wrapg L_Cond (pg_level k) (core k st0)) as [st1 ok]. cbn [fst snd] in *.
-    set (st2 := emit_hoist st1 ident k (g_val (end_path ok))).
+    set (st2 := emit_hoist st1 ident k (g_val (end_path ok)) (g_js (end_path ok))).
     pose proof (mono_wrapg o L_Cond st2 Hfo) as Hi2.
     pose proof (sub_reads o L_Cond st2 IHo) as Hr.
     destruct (wrapg L_Cond (pg_level o) (core o st2)) as [st3 oo]. cbn [fst snd] in *.
@@ -129,7 +129,7 @@ Section Get.
     intros c t f Hfc Hft Hff IHt IHf st. cbn [gen_core]. destruct (gen_private st) as [ident st0] eqn:Ep.
     pose proof (mono_wrapg c L_Cond st0 Hfc) as Hi1.
     destruct (wrapg L_Cond (pg_level c) (core c st0)) as [st1 oc]. cbn [fst snd] in *.
-    set (st2 := emit_hoist st1 ident c (g_val (end_path oc))).
+    set (st2 := emit_hoist st1 ident c (g_val (end_path oc)) (g_js (end_path oc))).
     pose proof (mono_wrapg t L_Cond st2 Hft) as Hi2.
     pose proof (sub_reads t L_Cond st2 IHt) as Hrt.
     destruct (wrapg L_Cond (pg_level t) (core t st2)) as [st3 ot]. cbn [fst snd] in *.
